@@ -19,6 +19,7 @@ EXPLANATION = (
     "re-parses the same codes with wait_for_more=False, a pending timeout is cancelled before every new parse and armed when an event loop is present; "
     "(5) the special trie values are exactly the ones get_recurse dispatches on and the key table is prefix-free."
     " Added after seed round 3: (7) FLAG-FWD - every decoder that takes `more_available` receives its caller's own flag (the nested ESC-prefixed decode included); (8) the byte ranges of within_double_byte as integer intervals (C11.8)."
+    ' Round 4: (9) string methods are applied to an event of the nested ESC decode only after an isinstance test excluded every tuple event (mouse 4-tuples and cursor-position 3-tuples).'
 )
 NOT_DECIDED = (
     "That event names/coordinates are the documented ones for every sequence; equality of event lists under all cuts for value-dependent recognisers "
